@@ -391,6 +391,9 @@ func contractMentions(c *vc.Contract, prop string) bool {
 	if contains(c.Props, prop) {
 		return true
 	}
+	if contains(strings.Fields(strings.ReplaceAll(c.Opts["safety_props"], ",", " ")), prop) {
+		return true
+	}
 	for _, cl := range c.Ensures {
 		if contains(cl.Props, prop) {
 			return true
